@@ -81,7 +81,7 @@ func report(c *hx.Ctx, cs run.Case, res run.Result, human string) {
 
 func runC10(c *hx.Ctx) error {
 	res := c.Res
-	res.Rule = "generated Go programs (2-7 snippets of 22 kinds: loops, strings, floats, slices, maps, methods, closures, package variables, defer/recover, complex and nil constants, type switches, natives with env/variadics/callbacks, goroutine, select; normal end, panic or runtime error) and HTML templates (2-7 snippets of 16 kinds: shows in HTML/attribute/JS/CSS contexts, for, if, macros, natives, closures, render, maps, slices), built once and run 2-32 times concurrently (start jitter, GOMAXPROCS 1-16) or sequentially with the same or different inputs, every run compared with a fresh build's single run; a second stream of artefacts that write and then read state of every kind that could outlive a run (20 kinds in programs: variables of a native package declared with nil pointers of seven types written directly, through pointers, from functions, goroutines and callbacks, variables declared with pointers to host variables read or written, package-level variables initialised by calls, composite values mutated in place, closures in package-level func variables, init functions, channels, literals; 11 kinds in templates: globals declared with nil pointers and with pointers, the same through import, Run variables given by pointer, {% var %} and macros of imported files, file-level variables of a file that extends a layout), mixed with 0-2 ordinary snippets, run 2-12 times first sequentially then concurrently; state shared on purpose (pointer declarations) is given to the oracle as an input: a chain of fresh builds each started on the host state its predecessor left, plus the generator's own reference semantics for the final host state; plus toy register programs compared with the Lean machine. Non-trivial: at least two runs and a build that succeeds; distinct by source+inputs"
+	res.Rule = "generated Go programs (2-7 snippets of 22 kinds: loops, strings, floats, slices, maps, methods, closures, package variables, defer/recover, complex and nil constants, type switches, natives with env/variadics/callbacks, goroutine, select; normal end, panic or runtime error) and HTML templates (2-7 snippets of 16 kinds: shows in HTML/attribute/JS/CSS contexts, for, if, macros, natives, closures, render, maps, slices), built once and run 2-32 times concurrently (start jitter, GOMAXPROCS 1-16) or sequentially with the same or different inputs, every run compared with a fresh build's single run; a second stream of artefacts that write and then read state of every kind that could outlive a run (20 kinds in programs: variables of a native package declared with nil pointers of seven types written directly, through pointers, from functions, goroutines and callbacks, variables declared with pointers to host variables read or written, package-level variables initialised by calls, composite values mutated in place, closures in package-level func variables, init functions, channels, literals; 11 kinds in templates: globals declared with nil pointers and with pointers, the same through import, Run variables given by pointer, {% var %} and macros of imported files, file-level variables of a file that extends a layout), mixed with 0-2 ordinary snippets, run 2-12 times first sequentially then concurrently; state shared on purpose (pointer declarations) is given to the oracle as an input: a chain of fresh builds each started on the host state its predecessor left, plus the generator's own reference semantics for the final host state; a third stream: the matrix function kind (declared function, method value, function literal in a package variable, imported-file macro, macro of the extending file, macro of the file itself) x state its body touches (11 program / 7 template kinds) x use of the function VALUE (15 program / 8 template forms), every point run 3-8 times in sequence with pairwise different inputs and then concurrently; plus toy register programs compared with the Lean machine. Non-trivial: at least two runs and a build that succeeds; distinct by source+inputs"
 
 	if c.Replay != "" {
 		return replay(c)
@@ -97,6 +97,10 @@ func runC10(c *hx.Ctx) error {
 		if !strings.HasPrefix(a, "ok ") {
 			res.AddBreak(proto.Break{Kind: "correspondence", Name: "facts", Case: "C10 facts", Impl: "-", Model: a})
 		}
+	}
+
+	if os.Getenv("VERIF_C10_ONLY") == "funcval" { // development aid: the function-value stream alone
+		return funcValueStream(c)
 	}
 
 	// 1. toy machine: Lean prediction under a random schedule vs. real concurrent runs
@@ -294,6 +298,13 @@ func runC10(c *hx.Ctx) error {
 		return err
 	}
 	raceSample = append(raceSample, stateSample...)
+
+	// 2c. function values across runs
+	t0 := time.Now()
+	if err := funcValueStream(c); err != nil {
+		return err
+	}
+	res.Notes = append(res.Notes, fmt.Sprintf("function-value stream: %.1fs", time.Since(t0).Seconds()))
 
 	// 3. the same kind of runs under the race detector (thorough tier; needs cgo)
 	if len(raceSample) > 0 {
